@@ -347,6 +347,47 @@ var jSpellings = []struct {
 	{"64-bytes-differing-in-the-first-byte", 64, true}, {"300-bytes-differing-in-the-first-byte", 300, true},
 	{"NUL-inside", 0, false}, {"UTF-8", 0, false}, {"blanks-and-controls", 0, false},
 	{"sizes-mixed-in-one-scenario", 0, false}, {"prefixes-of-each-other", 0, false},
+	// names that are other names put together with a separator: 1 = a, 2 = b, 3 = a<sep>b, 4 = c, 5 = b<sep>c,
+	// 6 = a<sep>b<sep>c, 7 = <sep> (the default topic twice), 8 = <sep>a, 9 = a<sep>
+	{"joined-by-comma", 0, false}, {"joined-by-blank", 0, false}, {"joined-by-NUL", 0, false}, {"joined-by-bar", 0, false},
+	{"joined-by-semicolon", 0, false}, {"joined-by-LF", 0, false}, {"joined-by-slash", 0, false}, {"joined-by-unit-separator", 0, false},
+	{"joined-by-nothing", 0, false},
+}
+
+var jJoinSeps = map[string]string{"joined-by-comma": ",", "joined-by-blank": " ", "joined-by-NUL": "\x00", "joined-by-bar": "|",
+	"joined-by-semicolon": ";", "joined-by-LF": "\n", "joined-by-slash": "/", "joined-by-unit-separator": "\x1f", "joined-by-nothing": ""}
+
+func jJoinedName(n uint64, sep string) string {
+	switch n {
+	case 1:
+		return "a"
+	case 2:
+		return "b"
+	case 3:
+		return "a" + sep + "b"
+	case 4:
+		return "c"
+	case 5:
+		return "b" + sep + "c"
+	case 6:
+		return "a" + sep + "b" + sep + "c"
+	case 7:
+		if sep == "" {
+			return "ba" // with no separator the join of two default topics IS the default topic
+		}
+		return sep
+	case 8:
+		if sep == "" {
+			return "ca"
+		}
+		return sep + "a"
+	case 9:
+		if sep == "" {
+			return "cb"
+		}
+		return "a" + sep
+	}
+	return "t" + string(rune('a'+(n-1)%26)) + "t"
 }
 
 var jMixedSizes = []int{1, 63, 64, 65, 200, 5000, 127, 128, 255, 256, 2, 32}
@@ -377,6 +418,9 @@ func jTopicName(n, spell uint64) string {
 	sp := jSpellings[spell]
 	if sp.size > 0 {
 		return jSizedName(sp.size, sp.first, letter)
+	}
+	if sep, ok := jJoinSeps[sp.name]; ok {
+		return jJoinedName(n, sep)
 	}
 	switch sp.name {
 	case "NUL-inside":
